@@ -11,7 +11,7 @@ RULE = ("histories over one or two queues with a normal, a topic-filtered normal
         "1 us to seconds, short and long consumes, consumes that are already polling when the message is enqueued (enqueue at "
         "every polling phase), rejects / finishes of messages taken through the delayed category; distinct by the printed Coq op "
         "list; non-trivial = a delayed message is involved in a delivery, or a listening consumer waits across a due time")
-TRUSTED = ["in-memory broker only; Redis and RabbitMQ clients are not covered by this revision of the check",
+TRUSTED = ["brokers: in-memory (concurrent histories, cancellation), Redis client over harness/fakeredis.py = coq/RedisSrv.v (sequential histories of one client), RabbitMQ client over harness/fakeamqp.py = coq/AmqpSrv.v (sequential histories, fixed callback schedule); RedisSrv.v and AmqpSrv.v are descriptions of the servers written from their documentation, not compared with real servers (none available)",
            "the bound on the delivery latency after T (one update period of 1 s + 3 ms + 1 ms per waiting message) is checked by "
            "the oracle on the real consumer in virtual time; the theorem behind it (every update pass moves every due entry) "
            "does not bound the number of polls between passes"]
